@@ -102,9 +102,23 @@ def run(ctx, rep):
                    witness=None if ok else "the returned string depends on the attribute flag: " + T.explain(src[0]),
                    nontrivial=True, key="%s/string" % api)
         # every return must yield the same string expression in both modes: a return placed under the flag
+        def _str_proj(r):
+            v = r.value
+            if isinstance(v, ast.Tuple) and v.elts:
+                v = v.elts[0]
+            return unparse(v) if isinstance(v, ast.Name) else None
+        all_projs = {_str_proj(r) for r in rets}
         for st in own_nodes(f.node):
             if isinstance(st, ast.If) and FuncTaint(T, f).expr(st.test):
                 inner = [x for x in ast.walk(st) if isinstance(x, ast.Return)]
+                # every return of the function hands out the same (untainted, see above) local as its string, and that local
+                # is not rebound under the flag: the flag only chooses whether the attribution list goes with it
+                same = len(all_projs) == 1 and None not in all_projs and not any(
+                    isinstance(n, ast.Name) and isinstance(n.ctx, ast.Store) and n.id in all_projs for n in ast.walk(st))
+                if same:
+                    rep.ob("NI", True, st, f, construct="returns selected by the attribute flag", how="both hand out the same local %s as the string" % sorted(all_projs),
+                           key="%s/return-under-flag-same-string" % api)
+                    continue
                 for x in inner:
                     rep.ob("NI", False, x, f, construct="return under the attribute flag",
                            witness="a separate return statement is selected by the attribute flag: the strings of the two modes are computed differently",
